@@ -96,6 +96,8 @@ pub fn c12_rotate() {
         let kind = if vsym::param("kinds", 0) == 1 { vsym::choice("kind", 2) } else { 0 };      // update / remove
         let r = Oplog::try_write_op_log(&mut w, Some(1), k, &kind_of(kind), t);
         vsym::check("rotate.write-ok", r.is_ok());
+        // what a node reports to its primary when it re-syncs at this instant (also right after a rotation)
+        vsym::check("rotate.last-op-time-is-newest", Oplog::last_op_time() == t);
         times.push(t); keys.push(k); kinds.push(kind_of(kind).to_u8()); prev = t; i += 1;
     }
     let since = vsym::any_u64("since");
